@@ -130,12 +130,14 @@ class Check:
         ilv: T.List[str] = []
         trace: T.Dict[str, T.Any] = {'edges': [{'idx': e.idx, 'line': e.line, 'outs': e.all_outs, 'ins': e.ins, 'implicit': e.implicit, 'order_only': e.order_only,
                                                 'command': m.command(e)[:300]} for e in runnable][:80]}
+        orders: T.List[T.Any] = [base.order]
         # ---- (a)+(b): schedules
         for pol in sc['policies']:
             X.restore_tree(pristine, bd)
             name, _, seed = pol.partition(':')
             res = ex.schedule(edges, name, random.Random(int(seed) if seed else 0))
             sim_steps += res.steps
+            orders.append(res.order)
             add(faults, 'schedule-' + name)
             if res.order != base.order:
                 keys.append(prng.short([shape, res.order]))
@@ -187,7 +189,7 @@ class Check:
         return R.ok(faults=faults, probes=probes, nontrivial=nontrivial, distinct_keys=keys, distinct_key=prng.short(keys), interleavings=ilv,
                     steps=sim_steps, summary={'edges': len(runnable), 'generated_inputs_consumed': gen_consumed, 'policies': sc['policies'],
                                               'base_order_lines': [next(e.line for e in edges if e.idx == i) for i in base.order][:30]},
-                    trace_digest=prng.digest([base.digests, sorted(keys)]))
+                    trace_digest=prng.digest([sorted(base.digests), orders, sorted(keys)]))
 
     @staticmethod
     def out_kind(e: T.Any) -> str:
